@@ -79,7 +79,7 @@ for f in sorted(glob.glob('**/contracts_verif.go', recursive=True)):
             continue
         fn = m.group(1)
         j = None
-        for k in range(i + 1, min(i + 4, len(lines))):
+        for k in range(i + 1, min(i + 7, len(lines))):
             if lines[k].startswith('//@   props'):
                 j = k
                 break
